@@ -2,9 +2,9 @@ package main
 
 import (
 	"fmt"
-	"sync"
 	"go/types"
 	"strings"
+	"sync"
 
 	"golang.org/x/tools/go/ssa"
 )
@@ -47,56 +47,67 @@ type liveTask struct {
 
 // State of one symbolic path.
 type State struct {
-	vals     map[ssa.Value]Val
-	heap     map[string]string // heap array name -> current SMT term
-	ghosts   map[string]Val
-	names    map[string]Val // source-level variable name -> value or location
-	facts    []string
-	decls    []string
-	open     map[*ssa.BasicBlock]bool
-	cnt      string // allocation counter base
-	allocN   int
-	defers   []deferred
-	path     []string
-	oldHeap  map[string]string
-	oldVals  map[string]Val // ghost snapshot at entry
-	live     []liveTask
-	paniced  bool
-	recoverV string
-	loopEnt  map[*ssa.BasicBlock]map[string]string // heap at loop entry (for old-at-loop)
-	curLoop  *ssa.BasicBlock
-	curBlock *ssa.BasicBlock
-	unstable map[string]bool
-	nonnil   map[string]bool
+	vals         map[ssa.Value]Val
+	heap         map[string]string // heap array name -> current SMT term
+	ghosts       map[string]Val
+	names        map[string]Val // source-level variable name -> value or location
+	facts        []string
+	decls        []string
+	open         map[*ssa.BasicBlock]bool
+	cnt          string // allocation counter base
+	allocN       int
+	defers       []deferred
+	path         []string
+	oldHeap      map[string]string
+	oldVals      map[string]Val // ghost snapshot at entry
+	live         []liveTask
+	paniced      bool
+	recoverV     string
+	loopEnt      map[*ssa.BasicBlock]map[string]string // heap at loop entry (for old-at-loop)
+	curLoop      *ssa.BasicBlock
+	curBlock     *ssa.BasicBlock
+	unstable     map[string]bool
+	nonnil       map[string]bool
 	locksTouched []string
 	guardedBases map[string]string // heap base name -> lock reference term (function-scoped field guard)
-	guarded  map[string]string // object / cell / map reference term -> lock reference term that must be held
+	guarded      map[string]string // object / cell / map reference term -> lock reference term that must be held
+	frames       []*inlineFrame    // inlined callees without a contract (innermost last)
+}
+
+// inlineFrame: a loop-free repo function without a contract whose body is executed in place of the call.
+type inlineFrame struct {
+	fn     *ssa.Function
+	retTo  *ssa.BasicBlock
+	retIdx int
+	res    ssa.Value
+	names  map[string]Val
 }
 
 func (s *State) clone() *State {
 	n := &State{
-		vals:     make(map[ssa.Value]Val, len(s.vals)),
-		heap:     make(map[string]string, len(s.heap)),
-		ghosts:   make(map[string]Val, len(s.ghosts)),
-		names:    make(map[string]Val, len(s.names)),
-		facts:    append([]string(nil), s.facts...),
-		decls:    append([]string(nil), s.decls...),
-		open:     make(map[*ssa.BasicBlock]bool, len(s.open)),
-		cnt:      s.cnt,
-		allocN:   s.allocN,
-		defers:   append([]deferred(nil), s.defers...),
-		path:     append([]string(nil), s.path...),
-		oldHeap:  s.oldHeap,
-		oldVals:  s.oldVals,
-		live:     append([]liveTask(nil), s.live...),
-		paniced:  s.paniced,
-		recoverV: s.recoverV,
-		loopEnt:  s.loopEnt,
-		curLoop:  s.curLoop,
-		curBlock: s.curBlock,
-		unstable: make(map[string]bool, len(s.unstable)),
-		nonnil:   make(map[string]bool, len(s.nonnil)),
+		vals:         make(map[ssa.Value]Val, len(s.vals)),
+		heap:         make(map[string]string, len(s.heap)),
+		ghosts:       make(map[string]Val, len(s.ghosts)),
+		names:        make(map[string]Val, len(s.names)),
+		facts:        append([]string(nil), s.facts...),
+		decls:        append([]string(nil), s.decls...),
+		open:         make(map[*ssa.BasicBlock]bool, len(s.open)),
+		cnt:          s.cnt,
+		allocN:       s.allocN,
+		defers:       append([]deferred(nil), s.defers...),
+		path:         append([]string(nil), s.path...),
+		oldHeap:      s.oldHeap,
+		oldVals:      s.oldVals,
+		live:         append([]liveTask(nil), s.live...),
+		paniced:      s.paniced,
+		recoverV:     s.recoverV,
+		loopEnt:      s.loopEnt,
+		curLoop:      s.curLoop,
+		curBlock:     s.curBlock,
+		unstable:     make(map[string]bool, len(s.unstable)),
+		nonnil:       make(map[string]bool, len(s.nonnil)),
 		locksTouched: append([]string(nil), s.locksTouched...),
+		frames:       append([]*inlineFrame(nil), s.frames...),
 	}
 	for k := range s.nonnil {
 		n.nonnil[k] = true
@@ -136,33 +147,35 @@ func (s *State) assume(f string) {
 
 // FE: verification of one function against its contract.
 type FE struct {
-	V        *Verifier
-	Fn       *ssa.Function
-	C        *FuncContract
-	S        *Sorter
-	Obs      []*Obligation
-	fresh    int
-	gdecls   map[string]string // global (all paths) declarations: name -> full decl line
-	gorder   []string
-	gaxioms  []string
-	strLits  map[string]string // literal -> const name
-	strOrder []string
-	paths    int
-	heapSorts map[string]string
-	npWhen    string // entry condition under which `nopanic own when` claims panic freedom
-	joinDisj  map[string][]string // join fact -> its disjuncts (for case splitting in the solver stage)
-	jmu       sync.Mutex
-	pending  map[*ssa.BasicBlock][]*State // states parked at join blocks (mergejoins)
-	rpo      map[*ssa.BasicBlock]int
-	errs     []string
-	loops    map[*ssa.BasicBlock]*loopInfo
-	loopOrd  []*ssa.BasicBlock
-	nopanic  bool
-	FnName   string // short display name
-	prefixes map[string]bool
-	usedExt  map[string]bool // extern contracts used (trusted base)
-	usedAsm  map[string]bool
-	curPos   string
+	V              *Verifier
+	Fn             *ssa.Function
+	C              *FuncContract
+	S              *Sorter
+	Obs            []*Obligation
+	fresh          int
+	gdecls         map[string]string // global (all paths) declarations: name -> full decl line
+	gorder         []string
+	gaxioms        []string
+	strLits        map[string]string // literal -> const name
+	strOrder       []string
+	paths          int
+	heapSorts      map[string]string
+	curB           *ssa.BasicBlock // block / index of the instruction being executed (for inlining continuations)
+	curI           int
+	npWhen         string              // entry condition under which `nopanic own when` claims panic freedom
+	joinDisj       map[string][]string // join fact -> its disjuncts (for case splitting in the solver stage)
+	jmu            sync.Mutex
+	pending        map[*ssa.BasicBlock][]*State // states parked at join blocks (mergejoins)
+	rpo            map[*ssa.BasicBlock]int
+	errs           []string
+	loops          map[*ssa.BasicBlock]*loopInfo
+	loopOrd        []*ssa.BasicBlock
+	nopanic        bool
+	FnName         string // short display name
+	prefixes       map[string]bool
+	usedExt        map[string]bool // extern contracts used (trusted base)
+	usedAsm        map[string]bool
+	curPos         string
 	pendingFork    []*State
 	recoverChecked bool
 	locals         map[string]types.Type
